@@ -69,6 +69,7 @@ func cmdCheck(args []string) int {
 	verif := fs.String("verif", "/verif", "verification directory")
 	prop := fs.String("prop", "", "property id")
 	tier := fs.String("tier", "quick", "quick | thorough")
+	fast := fs.Bool("fast", false, "development aid for seed regressions: 10 s per query, no retries (an undecided obligation still counts as not discharged)")
 	list := fs.Bool("list", false, "print the name of every claimed obligation (CLAIMED <name>)")
 	seed := fs.Int("seed", 0, "seed")
 	_ = fs.Parse(args)
@@ -205,6 +206,9 @@ func cmdCheck(args []string) int {
 		return engineErr("no obligations generated")
 	}
 	opts := vc.SolverOpts{TimeoutSec: 30, FirstTimeout: 4, Workers: 16, Seed: *seed, WantModel: true}
+	if *fast {
+		opts.TimeoutSec = 10
+	}
 	if *tier == "thorough" {
 		opts.TimeoutSec = 120
 		opts.AllAgree = true
@@ -319,7 +323,7 @@ func cmdCheck(args []string) int {
 	// other solver seeds and twice the time before it is reported: solver search is not deterministic
 	// under load, and a timeout alone is not evidence of a violation
 	retried := 0
-	if *tier == "quick" {
+	if *tier == "quick" && !*fast {
 		var again []*vc.Obligation
 		for _, ob := range claimedObs {
 			if r := res[ob]; r.Status != "unsat" && r.Status != "sat" {
